@@ -1,47 +1,19 @@
-(* Proof/ChanWakeWitness.v -- schedules of the model: the finding excluded from C05_partial
-   (found by the extracted explorer, replayed on the real classes by checks/C05.py) and a
-   non-trivial run taken from a trace of the real code. *)
+(* Proof/ChanWakeWitness.v -- a non-trivial run of the model taken from a trace of the real
+   code (the hypotheses of the theorems are satisfiable by an interesting state). *)
 From Coq Require Import List ZArith Bool.
 From WV Require Import Lib.Conc Model.ChanWake Proof.ChanWakeInv.
 Import ListNotations.
 Open Scope Z_scope.
 
-(* the head of an expecting request arrives while a request is in service; at the end of
-   service() the worker executes send_continue, whose flush is NOT wrapped by _flush_exception:
-   a send() failing with an errno outside _DISCONNECTED raises through service(), the final
-   pull_trigger is skipped and the 25 bytes of "100 Continue" stay buffered with the I/O thread
-   asleep *)
-Definition cfg_cont : cfg := mkCfg 0 1 100 false.
-Definition sched_cont : list choice := [CIo; CIo; CIo; CIo; CIo; CIo; CIo; CClient [IReq; IHead]; CIo; CIoRecv true false; CIo; CIo; CIo; CIo; CIo; CIo; CIo; CIo; CIo; CIo; CIo; CIo; CIo; CIo; CIo; CW 0; CW 0; CW 0; CWApp 0 None false; CW 0; CW 0; CW 0; CW 0; CW 0; CW 0; CW 0; CW 0; CWSend 0 SErr; CW 0; CW 0; CW 0].
-
-Definition bad_quiescent (c : cfg) (nw : nat) (sched : list choice) : bool :=
-  let s := run (step c) (init nw) sched in
-  quiescent_parked s && quiescent s && negb (c05_ok s).
-
-Lemma cont_witness :
-  bad_quiescent cfg_cont 1 sched_cont = true /\
-  taint (run (step cfg_cont) (init 1) sched_cont) = true /\
-  no_pending_output (run (step cfg_cont) (init 1) sched_cont) = false.
-Proof. vm_compute. repeat split. Qed.
-
 (* a run taken from a trace of the real code (two pipelined requests, partial sends, the
    watermark wait at the end of the first service(), Connection: close on the second): it
-   ends in a quiescent state outside the finding class, closed, with nothing pending *)
+   ends in a quiescent state, closed, with nothing pending *)
 Definition cfg_example : cfg := mkCfg 0 50 120 false.
 Definition sched_example : list choice := [CW 0; CW 1; CIo; CIo; CIo; CIo; CIo; CIo; CIo; CClient [IReq; IReq]; CIo; CIoRecv true false; CIo; CIo; CIo; CIo; CIo; CIo; CIo; CIo; CIo; CIo; CIo; CIo; CIo; CIo; CIo; CIo; CIo; CW 0; CW 0; CW 0; CWApp 0 (Some 95) false; CW 0; CW 0; CW 0; CW 0; CW 0; CW 0; CWSend 0 (SOk 20); CWSend 0 SZero; CW 0; CW 0; CW 0; CWApp 0 (Some 10) false; CW 0; CW 0; CW 0; CW 0; CW 0; CW 0; CWSend 0 (SOk 85); CW 0; CW 0; CW 0; CWApp 0 (Some 300) false; CW 0; CW 0; CW 0; CW 0; CW 0; CW 0; CWSend 0 (SOk 90); CWSend 0 SZero; CW 0; CW 0; CW 0; CWApp 0 None false; CW 0; CW 0; CW 0; CW 0; CWSend 0 (SOk 210); CW 0; CW 0; CW 0; CW 0; CW 0; CW 0; CW 0; CW 0; CW 0; CW 0; CW 0; CW 0; CW 0; CW 0; CWApp 0 (Some 112) false; CW 0; CW 0; CW 0; CW 0; CW 0; CW 0; CWSend 0 (SOk 112); CW 0; CW 0; CW 0; CWApp 0 (Some 5) false; CW 0; CW 0; CW 0; CW 0; CW 0; CW 0; CW 0; CWApp 0 None true; CW 0; CW 0; CW 0; CW 0; CW 0; CW 0; CW 0; CW 1; CIo; CIo; CIo; CIo; CIo; CIo; CIo; CIoSend (SOk 5); CIo; CIo; CIo; CIo; CIo; CIo; CIo; CIo; CIo; CIo; CIoClose false; CIo; CIo; CIo; CIo].
 
 Lemma example_run :
   let s := run (step cfg_example) (init 2) sched_example in
-  quiescent_parked s = true /\ in_kf_class s = false /\ closed s = true /\ c05_ok s = true /\
+  quiescent_parked s = true /\ closed s = true /\ c05_ok s = true /\
   inv_ok cfg_example s = true.
 Proof. vm_compute. repeat split. Qed.
 
-Lemma refuted_continue_raises :
-  exists c nw sched, 0 <= hw c /\
-    let s := run (step c) (init nw) sched in
-    quiescent_parked s = true /\ taint s = true /\ no_pending_output s = false.
-Proof.
-  exists cfg_cont, 1%nat, sched_cont. destruct cont_witness as (H1 & H2 & H3).
-  unfold bad_quiescent in H1. apply andb_prop in H1. destruct H1 as [H1 _]. apply andb_prop in H1. destruct H1 as [H1 _].
-  repeat split; try assumption. unfold cfg_cont; simpl; discriminate.
-Qed.
